@@ -229,6 +229,18 @@ CLAIMED = {
              "padding are linked by wild and every generated b/bl is decoded and followed through its thunk to the intended symbol (static analysis: no AArch64 emulator here).",
         technique="Coq proof (loop invariant over the two-mode assignment) + model/implementation correspondence through a hook + static control-flow analysis of real AArch64 links",
         design_ref="DESIGN.md §3 C11"),
+    "C04": dict(
+        text="S1: Gallina model of the allocated part of layout_section_parts: a LOAD segment starts at the running file offset with the address moved to the next one congruent to it modulo the segment "
+             "alignment (the largest alignment of anything in the segment, NOBITS included, at least the page size); each part is aligned up in both spaces and both advance by its size. Theorems: "
+             "p_offset = p_vaddr (mod p_align); every part's address honours its alignment and the alignment divides p_align, so any permitted load bias keeps it; every part with file contents is "
+             "at the same distance from the segment start in the file and in memory; no two parts of the whole image overlap in the file or in memory. A refutation shows what leaving NOBITS "
+             "sections out of p_align does.",
+        note="Partial: which sections go to which segment and the header writers are not modelled; every clause of the property (ELF/program/section header sanity, overlap, containment and "
+             "permissions, no W+X, congruence, alignment, exact cover of TLS/RELRO/DYNAMIC/INTERP/PHDR/EH_FRAME/NOTE/PROPERTY segments) is evaluated on real outputs of all six kinds under page "
+             "sizes, -z options, --image-base, --section-start and SECTIONS scripts, including C-library programs that are also run; the sections of every LOAD segment are re-laid by the model "
+             "and compared with sh_offset/sh_addr, and p_align with seg_alignment.",
+        technique="Coq proof (arithmetic of align_up/align_modulo over folds, chains of extents) + structural predicate on real outputs + model re-layout of every LOAD segment",
+        design_ref="DESIGN.md §3 C04"),
     "C10": dict(
         text="S1: Gallina model of what wild writes for unwinding (an FDE is kept iff the section its pc-begin points into was loaded and is not empty; one search-table entry per kept FDE with "
              "hdr-relative signed start and FDE pointer; the table sorted by the signed start) and of the consumer (the last entry with start <= pc, then the range check — what libgcc's binary "
